@@ -16,7 +16,7 @@ ID = "C17"
 LEVEL = "exploration"
 BATCH = 25
 PROBES_EXPECTED = ['probe:menu-entered-or-left', 'probe:input-accepted', 'probe:session-ended']
-TIERS = {"quick": {"runs": 5000, "wall": 50}, "thorough": {"runs": 200000, "wall": 840}}
+TIERS = {"quick": {"runs": 9000, "wall": 50}, "thorough": {"runs": 200000, "wall": 840}}
 RULE = ("each run draws a program (biased to menus with `visible if`, menuconfig options with implicit sub-menus, choices, select/set-locked options), "
         "an initial sdkconfig class and a history of 5-60 UI actions (the complete key table of MenuConfigApp/MenuOptionList with dialog answers: keys, "
         "typed values checked by the real validator, file names, search queries), sessions restarting after a quit; invariants after every action; "
